@@ -370,6 +370,41 @@ CHECKS = {
                          "spec: coq/theories/Spec/C10Spec.v (parse_dec, eff_oti, spec_nb_blocks, P_C10_*)"],
         "coq_timeout": 1500,
     },
+    "C04": {
+        "extract": "C04", "driver": "c04",
+        "runs": [{"subcmd": "fuzzrecv", "shards_quick": 12, "shards_thorough": 16}],
+        "run_timeout_quick": 900, "run_timeout_thorough": 3000,
+        "rule": "Every case pushes a sequence of datagrams into a real Receiver AND a real MultiReceiver (default limits), calls cleanup, then pushes a valid "
+                "3-object session on a fresh TOI range (70000..) and fresh FDT instance ids (5000..) that must be delivered byte-exact, then drops the receiver; "
+                "each case runs in a worker process with a watchdog (20 s per case, 240 s per 256-case batch: HANG) and a 1 GiB address-space limit (CRASH); panics are "
+                "caught per call and located (file:line). B lines: every byte string of length 0,1,2 (and 3 with first byte 0x10/0x20 in quick; all 16.8 M of length 3 in "
+                "thorough), 256 per line. Y lines: every single-byte substitution (256 values) of every byte of the header region (LCT header, extensions, FEC payload id) of "
+                "every packet of a corpus of genuine sessions (quick 8, thorough 48: No-Code, RS28, RS28-US, RaptorQ, Raptor x in-band / FDT-only FTI x full / being-"
+                "transferred FDT x cenc null/zlib/deflate/gzip), one fresh receiver pair per value. Z lines: seeded field-aware mutation sequences (1..6 mutations) of whole "
+                "sessions: bit flips, interesting values, LCT word fields (version, C, PSI, S, O, H, A, B, HDR_LEN, codepoint), TOI, EXT_FTI contents per scheme with hostile "
+                "values (L, E, B, max_n<B, Z, N, Al, m>=32), HEL/HET, EXT_FDT/EXT_CENC/EXT_TIME contents and lengths, inserted extensions, payload-id fields, truncation, "
+                "symbol shortened/emptied/lengthened, extension, splicing of two packets, codepoint/FTI confusion, duplication, reordering, drops, crafted objects (any scheme "
+                "incl. GF(2^m), symbol sizes 0..E+1, SBN/ESI out of range), FDT XML rewriting (FEC-OTI-*, lengths, TOI, Expires, encodings; removal, duplication, truncation, "
+                "byte noise) re-packetised with flute's own builder. G lines: explicit sequences (corpus, minimised failures). The extracted checked parser model is recomputed "
+                "on every distinct datagram (Ok/Err of parse_alc_pkt, get_sender_current_time, parse_payload_id) and the reject path of push_data/push is compared with it. "
+                "Non-trivial = at least one datagram that is not a genuine packet was pushed; distinct = distinct input lines.",
+        "exhaustive_quick": True, "exhaustive_thorough": True,
+        "level_text": "Proved for ALL byte strings: the checked model of the repaired parser (every index, slice, subtraction, division, shift checked) returns Ok or Err "
+                      "(parse_alc_pkt, get_sender_current_time, parse_payload_id with any OTI); the repairs D1 D2 D4 change only the panics. Proved for ALL histories of the "
+                      "receiver model (any packets, clean-ups, drop; any answers of writers, FEC decoders, inflate, MD5, XML parser within the stated ranges): the panic flag "
+                      "never rises (recv_step_total, also on raw byte sequences through push_data), a refused datagram leaves state, writer log and flag unchanged "
+                      "(reject_leaves_state). Block level: the FEC decoders are consulted only inside their preconditions. Time, heap and the delivery of the follow-up "
+                      "session are measured on the implementation on every run, not proved.",
+        "explanation": "P_C04_parse on every datagram's parse outcome; P_C04_case = every call returned Ok/Err (no PANIC / HANG / CRASH), follow-up session delivered byte-exact "
+                       "unless its own TOIs / FDT ids were used, residual heap <= 1 MiB + 1.5 MiB x datagrams + 4 x bytes, every call <= 5 s; model/implementation agreement on "
+                       "the three parser functions and on the reject path.",
+        "assumptions": ["external crates (raptorq, raptor-code, reed-solomon-erasure, flate2, quick-xml, md5) are oracles of the receiver model: their answers are arbitrary in the theorems, their internals are exercised by the harness only",
+                        "FDT Transfer-Length values within 65535 of 2^64 are outside the range premise of C04_recv_step_total (see Properties/C04.v)",
+                        "real time and live heap are measured (watchdog, RLIMIT_AS, counting allocator), not modelled; the allocation ledger is C17's",
+                        "MultiReceiver is exercised by the harness; the theorems are about Receiver::push_data (the TSI demultiplexer is C18's model)"],
+        "trusted_base": ["model: coq/theories/Model/AlcFixed.v (lct.rs, alc.rs, alccodec/*.rs parse side, checked), Model/ObjRecv.v, Recv.v, RecvBytes.v (push_data)",
+                         "spec: coq/theories/Spec/C04Spec.v"],
+    },
 }
 
 
